@@ -21,7 +21,8 @@ RULE = ("cases = persistent archive configuration (file x {pickle, json, source}
         "one operation at a drawn point, verifies the debris, optionally applies ordinary operations on top, and then enumerates every kill point of a second "
         "operation on that state (crash leftovers must not break later operations). non-trivial = crash point strictly inside the operation (1 < k <= N) on a non-empty "
         "archive; distinct = (config, operation kind, kind of the interrupted call, k, N)")
-ASSUMPTIONS = ['process kill, not power loss: what was written before the kill is visible afterwards (page cache), no reordering of un-fsynced writes',
+ASSUMPTIONS = ['a quarter of the cases put TMPDIR on another file system (first of /dev/shm, /run/shm, /var/tmp, /tmp whose st_dev differs); where none exists the class other_fs_unavailable is reported instead',
+               'process kill, not power loss: what was written before the kill is visible afterwards (page cache), no reordering of un-fsynced writes',
                'crash points are the libc calls of the interposed set (list taken from nm -D of libpython and libsqlite3); the thorough tier cross-checks the set against strace',
                'values are small and within each codec domain; keys are alias-free and session-stable',
                'one operation per crash experiment; the verifying open may itself rewrite the archive (as any user open does)']
@@ -77,6 +78,14 @@ def cases(draw, cfg, kind=None):
             prior.append(['del', draw(ki)])
         else:
             prior.append(['upd', [[draw(ki), draw(vi)] for _ in range(draw(st.integers(1, 2)))]])
+    if kind == 'gen2redo':
+        # the same key removed, the removal killed, the key stored again and removed again: leftovers of the first removal carry the key's name/identity
+        focus = draw(ki)
+        prior = prior + [['set', focus, draw(vi)]]
+        op1 = draw_op(draw, draw(st.sampled_from(['del', 'pop', 'clear'])), ki, vi, focus)
+        op2 = draw_op(draw, draw(st.sampled_from(['del', 'pop', 'clear', 'set'])), ki, vi, focus)
+        return {'cfg': cfg, 'keys': pool, 'vals': vals, 'prior': prior, 'op': op1, 'k1': draw(st.integers(0, 40)), 'prior2': [['set', focus, draw(vi)]], 'op2': op2,
+                'tmp_elsewhere': False}
     if kind == 'gen2':
         # second generation: the prior state of the enumerated operation is itself the debris of a crashed operation
         # (leftover staging / hidden directories, journals, temporary files), possibly followed by a few ordinary operations
@@ -87,9 +96,11 @@ def cases(draw, cfg, kind=None):
         if draw(st.integers(0, 3)) == 0:
             prior2.append(['set', draw(ki), draw(vi)])
         op2 = draw_op(draw, draw(st.sampled_from(['del', 'pop', 'set', 'clear', 'upd', 'open'])), ki, vi, focus if draw(st.integers(0, 9)) < 7 else None)
-        return {'cfg': cfg, 'keys': pool, 'vals': vals, 'prior': prior, 'op': op1, 'k1': draw(st.integers(0, 40)), 'prior2': prior2, 'op2': op2}
+        return {'cfg': cfg, 'keys': pool, 'vals': vals, 'prior': prior, 'op': op1, 'k1': draw(st.integers(0, 40)), 'prior2': prior2, 'op2': op2,
+                'tmp_elsewhere': draw(st.integers(0, 3)) == 0}
     kind = kind or draw(st.sampled_from(OPKINDS))
-    return {'cfg': cfg, 'keys': pool, 'vals': vals, 'prior': prior, 'op': draw_op(draw, kind, ki, vi)}
+    # a quarter of the cases run the operation with the process's temporary directory (TMPDIR) on another file system than the archive
+    return {'cfg': cfg, 'keys': pool, 'vals': vals, 'prior': prior, 'op': draw_op(draw, kind, ki, vi), 'tmp_elsewhere': draw(st.integers(0, 3)) == 0}
 
 
 def strata(tier):
@@ -99,12 +110,35 @@ def strata(tier):
         for k in sorted(set(OPKINDS)):
             out.append(('%s/%s' % (c, k), cases(c, k)))
         out.append(('%s/gen2' % c, cases(c, 'gen2')))
+        out.append(('%s/gen2redo' % c, cases(c, 'gen2redo')))
     return out
 
 
 # ------------------------------------------------------------ the operation (runs in the armed child)
 
+_ELSEWHERE = {'dir': None}
+
+
+def other_filesystem_dir(base):
+    """a scratch directory on ANOTHER file system than base (tmpfs vs disk), or None: the system temporary directory of a user need not be on the
+    archive's file system, and a rename from there is a copy"""
+    try:
+        dev = os.stat(base).st_dev
+    except OSError:
+        return None
+    for cand in ('/dev/shm', '/run/shm', '/var/tmp', '/tmp'):
+        try:
+            if os.path.isdir(cand) and os.access(cand, os.W_OK) and os.stat(cand).st_dev != dev:
+                return tempfile.mkdtemp(prefix='c13_tmp_', dir=cand)
+        except OSError:
+            continue
+    return None
+
+
 def perform(cfg, root, op, keys, vals):
+    if _ELSEWHERE['dir']:
+        os.environ['TMPDIR'] = _ELSEWHERE['dir']         # in the armed child only
+        tempfile.tempdir = None
     kind = op[0]
     if kind in ('set', 'upd', 'del', 'pop', 'setdef', 'clear', 'popitem'):
         a = A.open_archive(cfg, root, 'A')
@@ -244,10 +278,18 @@ def judge(tag, opk, obs, S0, S1, popitem, where):
 
 def run_case(case):
     base = tempfile.mkdtemp(prefix='c13_', dir=_tmproot())
+    other = other_filesystem_dir(base) if case.get('tmp_elsewhere') else None
+    _ELSEWHERE['dir'] = other
     try:
-        return _run(case, base)
+        out, nt, classes = _run(case, base)
+        if case.get('tmp_elsewhere'):
+            classes.append('tmpdir_on_other_fs' if other else 'other_fs_unavailable')
+        return out, nt, classes
     finally:
+        _ELSEWHERE['dir'] = None
         shutil.rmtree(base, ignore_errors=True)
+        if other:
+            shutil.rmtree(other, ignore_errors=True)
 
 
 def enumerate_crashes(cfg, tmpl, base, S0, op, keys, vals, classes, nts, tagprefix='', label=''):
